@@ -1,14 +1,20 @@
 #!/bin/bash
-# Re-validate every seeded change against the current /repo tree and run the quick check of its property.
-# Writes seeded/SWEEP.txt.  (Scratch copies under $TMPDIR, removed afterwards.)
+# Re-validate every seeded change against the current /repo tree and run the quick check(s) that caught it.
+# Writes seeded/SWEEP.txt.  (Scratch copies under $TMPDIR, removed afterwards.)   env PAR=<parallel seeds> (default 3)
 out=/verif/seeded/SWEEP.txt
-echo "# seed sweep $(date -u +%FT%TZ)  repo=$(git -C /repo log --format=%h -1)  verif=$(git -C /verif log --format=%h -1)" > $out
-for d in /verif/seeded/*/; do
-  n=$(basename $d); pid=${n%%-*}; [ -f $d/patch.diff ] || continue
-  mkdir -p /tmp/seedtmp_$$; cp $d/patch.diff /tmp/seedtmp_$$/m1.diff; cp $d/demo.py /tmp/seedtmp_$$/m1_demo.py
+tmp=$(mktemp -d /tmp/seed_sweep.XXXXXX)
+one() {
+  d=$1; tmp=$2
+  n=$(basename $d); pid=${n%%-*}; [ -f $d/patch.diff ] || exit 0
+  w=$tmp/w_$n; mkdir -p $w; cp $d/patch.diff $w/m1.diff; cp $d/demo.py $w/m1_demo.py
   ids=$(python3 -c "import json,sys; m=json.load(open('$d/meta.json')); print(' '.join(m.get('caught_by_quick') or ['$pid']))")
-  res=$(timeout 1800 /verif/tools/seedcheck.sh /tmp/seedtmp_$$ 1 $ids 2>&1 | grep -E "^SEED|==" | tr '\n' ' ')
-  echo "$n: $res" | sed 's/SEED seedtmp_[0-9]* m1: //' >> $out
-  rm -rf /tmp/seedtmp_$$
-done
-grep -c "violation" $out
+  res=$(timeout 2400 /verif/tools/seedcheck.sh $w 1 $ids 2>&1 | grep -E "^SEED|==" | tr '\n' ' ')
+  echo "$n: $res" | sed 's/SEED w_[^ ]* m1: //' > $tmp/r_$n.txt
+  rm -rf $w
+}
+export -f one
+ls -d /verif/seeded/*/ | xargs -P ${PAR:-3} -I{} bash -c 'one {} '"$tmp"
+echo "# seed sweep $(date -u +%FT%TZ)  repo=$(git -C /repo log --format=%h -1)  verif=$(git -C /verif log --format=%h -1)" > $out
+cat $tmp/r_*.txt >> $out
+rm -rf $tmp
+echo "seeds: $(grep -vc '^#' $out)  caught (some check exits 1): $(grep -c 'exit=1' $out)  not caught: $(grep -v '^#' $out | grep -vc 'exit=1')"
